@@ -1,7 +1,7 @@
-CONSTANT MaxGen = 2
+CONSTANT MaxGen = 3
 CONSTANT NDig = 2
 CONSTANT MaxRevs = 4
-CONSTANT MaxSteps = 6
+CONSTANT MaxSteps = 4
 CONSTANT Reps <- Two
 CONSTANT Depths = {1}
 CONSTANT Configs <- CfgFeed
